@@ -302,6 +302,23 @@ def device_info(omit=None, order="file"):
     rates = [r for k, r in (("BaudRate_125", 125000), ("BaudRate_250", 250000), ("BaudRate_500", 500000)) if k != omit]
     sx.prove(sorted(di.allowed_baudrates) == rates, "allowed bit rates", tag + "/baudrates")
     sx.prove(od.node_id == 0x11 and od.bitrate == 250000, "node id and bit rate", tag + "/commissioning")
+    if omit is None:
+        # a second, different file imported afterwards: each dictionary describes its own file
+        d2 = Doc()
+        d2.section("DeviceInfo", ["VendorName=Other vendor", "VendorNumber=0x99", "ProductName=Valve", "ProductNumber=7",
+                                  "BaudRate_10=1", "BaudRate_1000=1", "BaudRate_250=0", "NrOfRXPDO=1", "NrOfTXPDO=0",
+                                  "LSS_Supported=0", "Granularity=0"])
+        d2.section("Comments", ["Lines=1", "Line1=another file"])
+        d2.section("DeviceComissioning", ["NodeID=3", "Baudrate=10"])
+        od2 = _import(d2.text(), ".dcf")
+        di2 = od2.device_information
+        sx.prove(sorted(di2.allowed_baudrates) == [10000, 1000000] and di2.vendor_name == "Other vendor"
+                 and di2.vendor_number == 0x99 and di2.LSS_supported is False and od2.node_id == 3
+                 and od2.bitrate == 10000 and od2.comments == "another file", "second file imported on its own",
+                 tag + "/second-import")
+        sx.prove(sorted(di.allowed_baudrates) == [125000, 250000, 500000] and di.vendor_name == "ACME motors"
+                 and od.node_id == 0x11 and od.bitrate == 250000 and di.LSS_supported is True,
+                 "first dictionary changed by a later import", tag + "/first-changed")
     for i, used in enumerate([0, 1, 1, 0, 1, 0, 1], 1):
         sx.prove((i in od) == bool(used), "dummy usage", tag + "/dummy")
         if used:
@@ -331,7 +348,7 @@ def jobs(tier):
     for sp in ("sub", "Sub"):
         out.append(dict(func="structure", params=dict(sub_spelling=sp)))
     for wn in (0, 1):
-        for n in ((1, 3) if q else (1, 2, 3, 8, 20)):
+        for n in ((1, 3, 17) if q else (1, 2, 3, 8, 17, 20, 254)):
             out.append(dict(func="compact", params=dict(with_names=wn, n=n)))
     out.append(dict(func="device_info", params={}))
     out.append(dict(func="device_info", params=dict(order="reversed")))
